@@ -60,7 +60,7 @@ def check(run):
             p.append(dict(op=o, x1=x1, y1=y1, x2=x2, y2=y2, v=500 + j))
         plans.append(p)
     # floats with negative zero and an element type that cannot be compared
-    for ty, vals in (("float", (-1000, 0, 3)), ("slice", (0, 4))):
+    for ty, vals in (("float", (-1000, 0, 3)), ("slice", (0, 4)), ("ptr", (0, 6))):
         for (w, h) in ((1, 1), (2, 2), (3, 1)):
             for v in vals:
                 p = [dict(op="Reset", ty=ty), dict(op="NewFilled", w=w, h=h, v=v), dict(op="Set", x1=0, y1=0, v=vals[0]), dict(op="Get", x1=w - 1, y1=h - 1),
